@@ -15,7 +15,7 @@ def run(tier):
                       "a noticed fault ~> disconnected with a recorded cause")],
         asis=[("MC_Client_asis_F7.cfg", "Inv_NoPlaceholder", "front-end channel closed before the cause is recorded (F7)"),
               ("MC_Client_asis_F8.cfg", "Inv_NoPanic", "read task panics on id u64::MAX (F8)")],
-        groups=["faulty", "route", "batch"], nscen=n)
+        groups=["faulty", "route", "batch", "tight"], nscen=n)
     # ---- supplementary robustness run (outside the specification's alphabet): mutated / extreme / arbitrary server bytes
     import os
     fz = os.path.join(rep.wd, "fuzz.ndjson")
